@@ -172,6 +172,7 @@ func checkC05(c *Check) {
 		}
 		c.Obl(ok, "C05.R4", fmt.Sprintf("cookie-name/return#%d", i+1), P.Pos(instrPos(r)), "cookie name starts with the constant __Host-", "a cookie name is returned that does not start with the constant __Host- prefix")
 	}
+	cookieNameIsInjective(c, "C05.R4", R)
 	if c.Anchor("C05.R4", "cookie directive function", m.CookieDirs != nil) {
 		dirs := m.CookieDirs
 		consts := map[string]bool{}
@@ -466,4 +467,33 @@ func cookieDecoderComplete(c *Check, rule string) {
 		bad = "the cookie map is not filled inside the loop over the pieces of the header"
 	}
 	c.Obl(bad == "", rule, "cookie-decoder-sees-every-cookie", P.Pos(dec.Pos()), "the Cookie header is split completely and every piece is considered", "the cookie decoder can ignore a cookie that was presented: "+bad)
+}
+
+// cookieNameIsInjective: the session cookie's name is built from constants and the configured
+// cookie_name_prefix used as it is. A prefix that is normalised, truncated, lower-cased or otherwise mapped
+// makes two filters with different configured prefixes read, set and delete the same cookie.
+func cookieNameIsInjective(c *Check, rule string, R *Roles) {
+	P := c.P
+	cn := R.CookieName
+	if !c.Anchor(rule, "cookie name function", cn != nil) {
+		return
+	}
+	for i, r := range returnsOf(cn) {
+		bad := ""
+		for _, l := range Leaves(r.Results[0], leafOpts{}) {
+			l = resolveCell(stripConv(l))
+			if _, isC := constString(l); isC {
+				continue
+			}
+			if gc, _, isCall := asCall(l); isCall && isCallTo(gc, idOIDCConfig+".GetCookieNamePrefix") {
+				continue
+			}
+			if _, f, isL := fieldLoad(l); isL && f != nil && f.Name() == "CookieNamePrefix" {
+				continue
+			}
+			bad = descDepth(l, 3)
+		}
+		c.Obl(bad == "", rule, fmt.Sprintf("cookie-name-injective/return#%d", i+1), P.Pos(instrPos(r)), "cookie name = constants + the configured prefix as it is",
+			"the cookie name contains "+bad+" instead of the configured prefix itself: different prefixes can map to one cookie name, and those filters then honour and remove each other's sessions")
+	}
 }
